@@ -1,10 +1,12 @@
 #!/bin/sh
-# tools/import_seed.sh C12 : copy /tmp/seed/C12_out/{1,2,3} into /verif/seeded/C12-{1,2,3} and confirm each
-PID="$1"
+# tools/import_seed.sh C12 [suffix] [offset]: copy /tmp/seed/C12<suffix>_out/{1,2,3} into
+# /verif/seeded/C12-{1+offset,...} and confirm each (scratch worktree, pinned suite, demo, checks)
+PID="$1"; SUF="${2:-}"; OFF="${3:-0}"
 for k in 1 2 3; do
-  src="/tmp/seed/${PID}_out/$k"
+  src="/tmp/seed/${PID}${SUF}_out/$k"
   [ -f "$src/patch.diff" ] || continue
-  dst="/verif/seeded/${PID}-$k"
+  n=$((k + OFF))
+  dst="/verif/seeded/${PID}-$n"
   mkdir -p "$dst"
   cp "$src/patch.diff" "$src/meta.json" "$dst/" 2>/dev/null
   cp "$src"/demo*.py "$src"/test_demo*.py "$dst/" 2>/dev/null
